@@ -239,5 +239,41 @@ def P_gcd_ops(l):
     return prog
 
 
-PROGRAMS = dict(fxp_ops=P_fxp_ops, bit_ops=P_bit_ops, convert_ops=P_convert_ops, field_ops=P_field_ops, random_ops=P_random_ops,
+def P_recip_retry(l):
+    """reciprocal / division in small secure fields with the low-probability event FORCED that the first blinding factor is 0 (the protocol must
+    retry with a fresh one): every party's first _random call inside each reciprocal returns a sharing of 0"""
+    async def prog(rt, seed):
+        import asyncio
+        rnd = pyrandom.Random(seed)
+        got, want = [], []
+        m = len(rt.parties)
+        real = rt._random
+        for q in (5, 7, 11, 101, 8, 16, 27):
+            if q in (8, 16, 27) and m >= q and rt.threshold: continue
+            if m >= q: continue                       # prime fields are lifted for m >= q: the forced zero would have to live in the lifted field (covered by q > m)
+            F = rt.SecFld(q); fld = F.field
+            a = rnd.randrange(1, q); b = rnd.randrange(q)
+            ea, eb = fld(_elt(fld, a)), fld(_elt(fld, b))
+            x, y = F(ea), F(eb)
+            calls = [0]
+            def forced(sftype, bound=None, calls=calls, fld=fld):
+                calls[0] += 1
+                if calls[0] == 1 and bound is None:
+                    if rt.options.no_prss:
+                        f = asyncio.Future(loop=rt._loop); f.set_result([fld(0)]); return f
+                    return fld(0)
+                return real(sftype, bound)
+            rt._random = forced
+            try:
+                r1 = await rt.output(rt.reciprocal(x))
+                calls[0] = 0
+                r2 = await rt.output(y / x)
+            finally:
+                rt._random = real
+            got += [repr(r1), repr(r2)]; want += [repr(1 / ea), repr(eb / ea)]
+        return got, want, [], None, seed
+    return prog
+
+
+PROGRAMS = dict(recip_retry=P_recip_retry, fxp_ops=P_fxp_ops, bit_ops=P_bit_ops, convert_ops=P_convert_ops, field_ops=P_field_ops, random_ops=P_random_ops,
                 seclist_ops=P_seclist_ops, gcd_ops=P_gcd_ops)
